@@ -1,6 +1,7 @@
 import Pandora.Drv.Util
 import Pandora.Model.C12
 import Pandora.Model.C12Pool
+import Pandora.Model.C12Left
 import Pandora.Spec.C12
 
 /-
@@ -29,6 +30,7 @@ def splitTop (s : String) : List String :=
 
 def parseLeaf (s : String) : Option Part :=
   match s.splitOn ":" with
+  | ["none"] => some (.comp [])     -- a composite of no parts
   | ["once", n] => do pure (.once (â† n.toInt?))
   | ["const", ops, ms] => do pure (.const (â† ops.toInt?) (â† ms.toInt?))
   | ["constm", mops, ms] => do pure (.constm (â† mops.toInt?) (â† ms.toInt?))
@@ -82,7 +84,10 @@ def parseObs (kv : List (String Ã— String)) (ammo : Nat := 0) (rps : List RSeg :
          -- computed from the profile text (the harness prints its own figure as `rpsmin=`; it is not used)
          rpsmin := rpsMinNs rps, rpsfloor := rpsFloor rps,
          rpsspans := â† parseSpans (getS kv "rpsspans"), mfin := getN? kv "mfin",
-         rpsgiven := â† parseInts (getS kv "rpsgiven") }
+         rpsgiven := â† parseInts (getS kv "rpsgiven"),
+         rpsl0 := getI? kv "rpsl0", sul0 := getI? kv "sul0",
+         rpsleaf := (getI? kv "rpsleaf").getD (-1), rpsout := (getI? kv "rpsout").getD 0,
+         rpsunk := rps.any (fun sg => match sg with | .unlim _ => true | _ => false) }
 
 def reasonOf : String â†’ Option ExitReason
   | "sched" => some .scheduleEnd
@@ -189,6 +194,13 @@ def poolReplay (perinst : Bool) (o : Obs) : PSt :=
       poolRunLift c perinst p [.wait { ctxDone := p.base.startCtxDone, tok := p.base.toks.head?, timerWins := true } true 0]
   poolRun c p (List.replicate p.pending.length (.recvRun 0) ++ [.recvStart])
 
+/-- `Left()` of a never started composite over the segments of an RPS profile, by the model of composite.go (âˆ’2: the model would
+shift, which an unstarted composite never does) -/
+def rpsFreshLeft (rps : List RSeg) : Int :=
+  (Pandora.Model.C12Left.freshLeft (rps.map fun sg => match sg with
+    | .unlim _ => (-1 : Int)
+    | .leaf p => (partFloor p : Int))).getD (-2)
+
 def natList (l : List Nat) : String := ",".intercalate (l.map toString)
 
 /-- how `Engine.Run` returns, where that does not depend on timing (the caller never cancels): the sequential loop of
@@ -209,6 +221,7 @@ def engineErr (ins obss : List String) : Option String :=
 
 /-- one pool: (model observation, verdict) -/
 def handlePool (input impl : String) (engErr : Option String := none) : String Ã— String :=
+  let rps := (parseRps (getS (parseKV input) "rps")).getD []
   match parseParts (getS (parseKV input) "startup"),
       (parseRps (getS (parseKV input) "rps")).bind (fun rps => parseObs (parseKV impl) ((getN? (parseKV input) "ammo").getD 0) rps) with
   | some parts, some o =>
@@ -242,6 +255,11 @@ def handlePool (input impl : String) (engErr : Option String := none) : String Ã
       else if a == "ids" then s!"ids={natList mids}"
       else if a == "running" then s!"running={s.running.length}"
       else if a == "allawaited" then s!"allawaited={allawaited}"
+      -- `Left()` of the never started RPS profile, through the model of `NewComposite` / `(*compositeSchedule).Left` (`freshLeft` over
+      -- what the parts answer: unknown for an unlimited part, else their tokens) where a part of unknown length decides it
+      else if a == "rpsl0" && o.rpsunk then s!"rpsl0={rpsFreshLeft rps}"
+      else if a == "rpsl0" && o.rpstot â‰¥ 0 then s!"rpsl0={o.rpstot}"
+      else if a == "sul0" then s!"sul0={o.total}"
       else s!"{a}={b}")
     let v := judge parts perinst o
     let v := if v == "ok" && !calm then "skip:inconclusive-harness-scheduled-badly"
